@@ -4,6 +4,7 @@
 // unit size, direction, optional burst), overlapping ranges. The reference model (written from dma.md / ahbm.md) applies
 // the element sequence in order to a model memory and a model external memory; compared: the whole 512 KiB DSP memory
 // image, the ordered external access log, the DMA interrupt.
+#include "shared_memory.h"
 #include "sysinst.h"
 #include "vf.h"
 
@@ -25,8 +26,25 @@ struct Xfer {
 };
 using Case = std::vector<Xfer>;
 
+// work budget on the emulator's own memory accesses (access observer hook): a transfer that does not stop after the
+// documented number of elements would otherwise hang the worker
+uint64_t g_accesses = 0, g_access_budget = ~0ull;
+bool budget_observer(uint32_t, bool) {
+    if (++g_accesses > g_access_budget)
+        throw std::runtime_error("access budget exceeded");
+    return true;
+}
+
 Sys& sys() {
-    static Sys* s = new Sys;
+    static Sys* s = [] {
+        Sys* n = new Sys;
+        Teakra::SharedMemory::verif_observer = budget_observer;
+        n->on_external = [] {
+            if (++g_accesses > g_access_budget)
+                throw std::runtime_error("access budget exceeded");
+        };
+        return n;
+    }();
     return *s;
 }
 
@@ -140,6 +158,14 @@ rc::Gen<Xfer> genXfer() {
         x.size[0] = (uint16_t)size_gen(24);
         x.size[1] = (uint16_t)size_gen(8);
         x.size[2] = (uint16_t)size_gen(5);
+        // one transfer in 24: a single long row whose length sits at a width boundary of the 16-bit size register
+        const bool long_row = !x.src_ext && !x.dst_ext && s.chance(1, 24);
+        if (long_row) {
+            static const uint16_t edge[] = {0xFFFF, 0xFFFF, 0xFFFE, 0x8001, 0x8000, 0x7FFF, 0x4001, 0x1001};
+            x.size[0] = s.chance(3, 4) ? edge[s.below(8)] : (uint16_t)(0x1000 + s.below(0xF000));
+            x.size[1] = (uint16_t)s.below(2);
+            x.size[2] = (uint16_t)s.below(2);
+        }
         const unsigned unit = x.dword ? 4 : 2; // external unit size in bytes, matched to the element size
         x.burst = (x.src_ext || x.dst_ext) && s.chance(1, 3) ? 1 + (unsigned)s.below(2) : 0;
         auto step_gen = [&](bool ext) -> uint16_t {
@@ -167,6 +193,11 @@ rc::Gen<Xfer> genXfer() {
         for (int i = 0; i < 3; ++i) {
             x.sstep[i] = step_gen(x.src_ext);
             x.dstep[i] = step_gen(x.dst_ext);
+        }
+        if (long_row) {
+            // keep the walk inside the 17-bit data space: unit or zero steps along the row
+            x.sstep[0] = (uint16_t)(s.chance(1, 4) ? 0 : (x.dword ? 2 : 1));
+            x.dstep[0] = (uint16_t)(s.chance(1, 4) ? 0 : (x.dword ? 2 : 1));
         }
         if (x.burst) {
             // bursts: the property speaks about "the step equals the unit size"; whole bursts only
@@ -238,7 +269,7 @@ vf::Result check(const Case& cs) {
     for (size_t xi = 0; xi < cs.size(); ++xi) {
         const Xfer& x = cs[xi];
         auto seq = element_sequence(x);
-        if (seq.size() > 4096)
+        if (seq.size() > 70000)
             continue;
         // domain guard (decoded replay files may carry anything): DSP side inside the 17-bit data space
         bool ok = true;
@@ -357,12 +388,18 @@ vf::Result check(const Case& cs) {
             }
         }
         // ---- run ----
+        g_accesses = 0;
+        g_access_budget = 8 * (uint64_t)seq.size() * blen + 64; // <= 4 word accesses + 2 external accesses per element
         sysinst::Outcome o = s.guarded([&] {
             if (x.start_path)
                 s.t->DataWrite(0x8000 + 0x1DE, 0x40C0);
             else
                 s.t->MMIOWrite(0x1DE, 0x40C0);
         });
+        g_access_budget = ~0ull;
+        if (o.kind == 3 && o.what == "access budget exceeded")
+            return vf::Result::fail(std::string("C13:nonterminating") + (x.dword ? ":dword" : ":word"),
+                                    "the transfer did not complete within 8x the documented number of memory accesses (" + std::to_string(seq.size()) + " elements; " + trace + ")");
         if (o.kind != 0)
             return vf::Result::fail("C13:outcome", "starting the transfer ended with '" + o.what + "' (" + trace + ")");
         // ---- compare ----
@@ -406,6 +443,8 @@ vf::Result check(const Case& cs) {
             vf::klass("zero size");
         if (x.dword)
             vf::klass("double-word mode");
+        if (seq.size() > 4096)
+            vf::klass(std::string("long row (") + (x.size[0] == 0xFFFF ? "SIZE0 = 0xFFFF" : x.size[0] >= 0x8000 ? "SIZE0 >= 0x8000" : "SIZE0 >= 0x1000") + (x.dword ? ", double word)" : ", word)"));
         vf::klass(std::string(x.src_ext ? "ext" : "dsp") + "->" + (x.dst_ext ? "ext" : "dsp") + (x.burst ? (x.burst == 1 ? " burst x4" : " burst x8") : ""));
         if (x.channel != 0)
             vf::klass("channel != 0");
